@@ -143,6 +143,40 @@ def mechanical_rewrites(text: str, toks: List[Tok]):
                     k += 1
                 expr = text[toks[i + 3].start:toks[k - 1].end]
                 edits.append((toks[i + 1].start, toks[k - 1].end, expr + ".iter_mut()", "R7"))
+        # R11: RECV.all(F)  ->  the loop `Iterator::all` is defined to be (short-circuiting conjunction)
+        if t.kind == "ident" and t.text == "all" and i >= 1 and toks[i - 1].text == "." and i + 1 < n and toks[i + 1].text == "(":
+            close = match_close(toks, i + 1)
+            # receiver: walk the postfix chain backwards
+            j = i - 1          # the '.'
+            k = j - 1
+            while True:
+                tk = toks[k]
+                if tk.kind == "punct" and tk.text in (")", "]"):
+                    d = 0
+                    while True:
+                        if toks[k].kind == "punct" and toks[k].text in (")", "]"):
+                            d += 1
+                        elif toks[k].kind == "punct" and toks[k].text in ("(", "["):
+                            d -= 1
+                            if d == 0:
+                                break
+                        k -= 1
+                    if toks[k - 1].kind == "ident":
+                        k -= 1
+                elif tk.kind == "ident":
+                    pass
+                else:
+                    raise SpliceError("R11: cannot find receiver of .all()")
+                if k >= 1 and toks[k - 1].kind == "punct" and toks[k - 1].text in (".", "::"):
+                    k -= 2
+                    continue
+                break
+            idx = sum(1 for e in edits if e[3] == "R11a")
+            edits.append((toks[k].start, toks[k].start, "{ let mut vx_it%d = " % idx, "R11a"))
+            edits.append((toks[i - 1].start, toks[i + 1].end, "; let mut vx_f%d = " % idx, "R11b"))
+            edits.append((toks[close].start, toks[close].end,
+                          "; let mut vx_r%d = true; loop\n/*@ALL%d@*/\n{ match vx_it%d.next() { Some(vx_x) => { if !vx_f%d(vx_x) { vx_r%d = false; break; } } None => { break; } } } vx_r%d }"
+                          % (idx, idx, idx, idx, idx, idx), "R11c"))
     return edits
 
 
@@ -234,6 +268,7 @@ class Splicer:
             except Exception as e:  # noqa
                 raise SpliceError("cannot parse %s: %s" % (p, e))
         self.lines: List[Line] = []
+        self.defaults: Dict[str, str] = {}
         self.fns: Dict[str, FnInfo] = {}
         self.items_copied: List[str] = []
         self.log: List[str] = []
@@ -257,9 +292,10 @@ class Splicer:
         sf, it, parent = self.lookup(key)
         text = sf.src[it.start:it.end]
         attrs = kv.get("attrs", "")
-        vis = kv.get("vis")
-        if vis is not None:
-            text = re.sub(r"^(pub(\([a-z]+\))?\s+)?", vis + " " if vis else "", text, count=1)
+        vis = kv.get("vis", self.defaults.get("vis"))
+        if vis == "strip":
+            # A5: visibility has no run-time meaning; Verus restricts what a public contract may mention
+            text = re.sub(r"^pub(\([a-z]+\))?\s+", "", text, count=1)
         line0 = sf.line_of(it.start)
         if attrs:
             self.emit(attrs, kind="ghost")
@@ -275,6 +311,8 @@ class Splicer:
         if parent is None:
             raise SpliceError("impl_open: %s has no enclosing impl" % key)
         hdr = sf.src[parent.start:parent.head_end].rstrip()
+        if self.defaults.get("vis") == "strip":
+            hdr = re.sub(r"^pub(\([a-z]+\))?\s+", "", hdr, count=1)
         line0 = sf.line_of(parent.start)
         for k, ln in enumerate((hdr + " {").split("\n")):
             self.lines.append(Line(ln, src=(sf.path, line0 + k), kind="real"))
@@ -323,6 +361,11 @@ class Splicer:
 
         # rename
         fn_tok = next(i for i, t in enumerate(toks) if t.kind == "ident" and t.text == "fn")
+        if kv.get("vis", self.defaults.get("vis")) == "strip" and toks[0].text == "pub":
+            end = toks[1].start
+            if toks[1].text == "(":
+                end = toks[match_close(toks, 1) + 1].start
+            edits.append((toks[0].start, end, "", "A5-vis", {}))
         name_tok = toks[fn_tok + 1]
         info.gen_name = name_tok.text
         # A1: named return
@@ -445,17 +488,40 @@ class Splicer:
                 ghost_check(slines, name)
                 off = ms[nth].start() if name == "before" else ms[nth].end()
                 ins(off, "\n" + block + "\n", "ghost", **meta)
+            elif name == "all":
+                pass        # handled with the R11 rewrite below
             else:
                 raise SpliceError("%s: unknown section %s" % (key, name))
         # ---- mechanical rewrites
+        all_sections = {}
+        for (name, args, slines, sline_no) in sections:
+            if name == "all":
+                ghost_check(slines, "all")
+                all_sections[int(args.strip())] = (slines, sline_no)
         for (s, e, rep, rule) in mechanical_rewrites(text, toks):
-            edits.append((s, e, rep, rule, {}))
+            meta = {}
+            if rule == "R11c":
+                m = re.search(r"/\*@ALL(\d+)@\*/", rep)
+                k = int(m.group(1))
+                if k in all_sections:
+                    slines, sline_no = all_sections.pop(k)
+                    # the loop annotation becomes its own chunk so that its labels are mapped
+                    pre, post = rep[:m.start()], rep[m.end():]
+                    edits.append((s, s, pre, rule, {}))
+                    edits.append((s, s, "\n".join(slines), "loop", dict(tmpl=(tmpl_file, sline_no))))
+                    edits.append((s, e, post, rule, {}))
+                    info.rewrites.append("%s@%s:%d" % (rule, os.path.basename(sf.path), sf.line_of(base + s)))
+                    continue
+                raise SpliceError("lost anchor: %s: .all() call %d has no //@all section" % (key, k))
+            edits.append((s, e, rep, rule, meta))
             info.rewrites.append("%s@%s:%d" % (rule, os.path.basename(sf.path), sf.line_of(base + s)))
+        if all_sections:
+            raise SpliceError("lost anchor: %s: //@all %s has no matching .all() call" % (key, sorted(all_sections)))
         if "rename" in kv:
             edits.append((name_tok.start, name_tok.end, kv["rename"], "rename", {}))
             info.gen_name = kv["rename"]
         # ---- apply: build chunks
-        edits.sort(key=lambda e: (e[0], e[1]))
+        edits = [e for _, e in sorted(enumerate(edits), key=lambda p: (p[1][0], p[1][1] != p[1][0], p[0]))]
         for a, b in zip(edits, edits[1:]):
             if b[0] < a[1]:
                 raise SpliceError("%s: overlapping edits at %d" % (key, b[0]))
@@ -524,6 +590,7 @@ class Splicer:
         files = sorted(f for f in os.listdir(self.cdir) if f.endswith(".rs"))
         for f in files:
             path = os.path.join(self.cdir, f)
+            self.defaults = {}
             tl = open(path, encoding="utf-8").read().split("\n")
             i = 0
             while i < len(tl):
@@ -532,6 +599,9 @@ class Splicer:
                 if s.startswith("//@item "):
                     key, kvs = split_key(s[len("//@item "):])
                     self.do_item(key, parse_kv(kvs))
+                    i += 1
+                elif s.startswith("//@default "):
+                    self.defaults.update(parse_kv(s[len("//@default "):]))
                     i += 1
                 elif s.startswith("//@impl_open "):
                     self.do_impl_open(split_key(s[len("//@impl_open "):])[0])
